@@ -11,7 +11,7 @@ TraceLog == ndJsonDeserialize(IOEnv.TRACE)
 
 Reset ==
   /\ kind' = "none" /\ slots' = <<>> /\ def' = Zero /\ err' = -1
-  /\ tab' = << >> /\ fin' = << >> /\ ever' = {} /\ ntok' = 0
+  /\ tab' = << >> /\ fin' = << >> /\ ever' = {} /\ ntok' = 0 /\ snap' = NoSnap
   /\ obs' = [a |-> "init", arg |-> [x |-> 0],
              exp |-> [ret |-> "ok", calls |-> <<>>, def |-> Zero, table |-> <<>>]]
   /\ att' = FALSE /\ dir' = FALSE /\ nin' = 0 /\ ik' = << >> /\ reg' = {} /\ was' = {} /\ rel' = << >>
